@@ -212,7 +212,7 @@ def srcLoop (st : Stack) (acc : Acc) (n : Nat) : List PLine → List LLine × St
       (⟨acc.start, n + 2, lines, cur.parts, cur.category⟩ :: rest.1, rest.2)
     else srcLoop r.1 { cur := cur, start := acc.start, lines := lines } (n + 1) ls
 
-inductive Err | finalBackslash | notTopLevel | inconsistent | notDirective
+inductive Err | finalBackslash | notTopLevel | inconsistent
 deriving DecidableEq, Repr, Inhabited
 
 def endsBackslash (body : List Char) : Bool := body.getLast? == some '\\'
@@ -255,11 +255,27 @@ def countedLines (t : List Char) : Except Err (List Nat) :=
   | some e => .error e
   | none => .ok ((cFileSource t).all.flatMap (·.lines))
 
-/-- the logical lines `c_file_source` yields: (category is CPP_DIRECTIVE, counted physical lines) -/
+/-- the first two parts of a CPP_DIRECTIVE buffer (text = optional " ", then "#") are "##".
+    As in `catOf`, the test is on the class components (`== " "` ⇔ class `space`, `== "#"` ⇔ class `hash`). -/
+def hashHash : List Cls → Bool
+  | .space :: .hash :: .hash :: _ => true
+  | .hash :: .hash :: _ => true
+  | _ => false
+
+/-- `flushed_line.lstrip(" ").startswith("##")` for a line of category CPP_DIRECTIVE -/
+def LLine.startsHashHash (l : LLine) : Bool := hashHash (l.parts.map (·.1))
+
+/-- `FileParser.is_directive(logical_line)`: the category is CPP_DIRECTIVE and the line does not start with
+    the token `##` (which `Lexer` would read as one operator, so that `DirectiveParser.parse` would raise
+    `ParseError("Not a directive.")`) -/
+def LLine.isDirective (l : LLine) : Bool := l.cat == .cppDirective && !l.startsHashHash
+
+/-- the logical lines `c_file_source` yields, as `parse_file` sees them:
+    (`FileParser.is_directive`, counted physical lines) -/
 def logical (t : List Char) : Except Err (List (Bool × List Nat)) :=
   match (cFileSource t).err with
   | some e => .error e
-  | none => .ok (((cFileSource t).all.filter LLine.yielded).map fun l => (l.cat == .cppDirective, l.lines))
+  | none => .ok (((cFileSource t).all.filter LLine.yielded).map fun l => (l.isDirective, l.lines))
 
 /-! ## `FileParser.parse_file`: `LineGroup` folding into the node list -/
 
@@ -272,33 +288,20 @@ structure Node where
   numLines : Nat         -- node.num_lines  (LineGroup.line_count)
 deriving Repr, DecidableEq, Inhabited
 
-/-- `DirectiveParser(Lexer(text).tokenize()).parse()` raises `ParseError("Not a directive.")`
-    iff the first token is not the operator `#`; on a CPP_DIRECTIVE line (text = optional " ",
-    then "#") that is the case iff the next character is another "#" (lexed as `##`).
-    As in `catOf`, the test is on the class components (`== " "` ⇔ class `space`, `== "#"` ⇔ class `hash`). -/
-def hashHash : List Cls → Bool
-  | .space :: .hash :: .hash :: _ => true
-  | .hash :: .hash :: _ => true
-  | _ => false
-
-def LLine.startsHashHash (l : LLine) : Bool := hashHash (l.parts.map (·.1))
-
 /-- `groups["code"]` = `some (lines, line_count)` when not `empty()` -/
 def groupLoop (code : Option (List Nat × Nat)) : List LLine → Except Err (List Node)
   | [] => match code with
     | some (ls, c) => .ok [⟨.code, ls, c⟩]
     | none => .ok []
   | l :: rest =>
-    if l.cat == .cppDirective then
-      if l.startsHashHash then .error .notDirective
-      else
-        match groupLoop none rest with
-        | .error e => .error e
-        | .ok ns =>
-          let d : Node := ⟨.directive, l.lines, l.lines.length⟩
-          match code with
-          | some (ls, c) => .ok (⟨.code, ls, c⟩ :: d :: ns)
-          | none => .ok (d :: ns)
+    if l.isDirective then
+      match groupLoop none rest with
+      | .error e => .error e
+      | .ok ns =>
+        let d : Node := ⟨.directive, l.lines, l.lines.length⟩
+        match code with
+        | some (ls, c) => .ok (⟨.code, ls, c⟩ :: d :: ns)
+        | none => .ok (d :: ns)
     else
       match code with
       | some (ls, c) => groupLoop (some (ls ++ l.lines, c + l.lines.length)) rest
@@ -310,8 +313,8 @@ structure ParseResult where
 deriving Repr, Inhabited
 
 /-- `FileParser(path).parse_file()` on the decoded text: node list in source order.
-    A `ParseError` is raised while the logical lines are consumed, i.e. before an exception
-    that ends the generator. -/
+    (`groupLoop` keeps its `Except` type: no exception is left in the folding since the repair of F-C05-3,
+    `groupLoop_ok`.) -/
 def parseFile (t : List Char) : Except Err ParseResult :=
   let r := cFileSource t
   match groupLoop none (r.all.filter LLine.yielded) with
